@@ -111,17 +111,34 @@ Definition deliv (L : list (instr * list instr)) (x : instr) (jp : nat * nat) : 
   exists ndj Fj, nth_error nodes (fst jp) = Some ndj /\ isF L (fst jp) Fj
     /\ ((nszout ndj = 1 /\ x = Fj) \/ (nszout ndj <> 1 /\ iop x = OGetter (snd jp) /\ In (x, [Fj]) L)).
 
+Definition state_ok (L : list (instr * list instr)) (i : nat) (nd : node) (x : instr) : Prop :=
+  (exists k ndk, nth_error nodes k = Some ndk /\ is_train ndk = true /\ ngid ndk = ngid nd /\ k <> i /\ isF L k x)
+  \/ ((forall k ndk, nth_error nodes k = Some ndk -> is_train ndk = true -> ngid ndk = ngid nd -> k = i)
+      /\ pers a nd = true /\ iop x = OLoader (ngid nd) /\ In (x, []) L).
+
+Definition dump_ok (L : list (instr * list instr)) (d : instr) (gt : nat * term) : Prop :=
+  iop d = ODumper /\ exists k ndk Fk, In (d, [Fk]) L /\ nth_error nodes k = Some ndk /\ is_train ndk = true /\ ngid ndk = fst gt /\ isF L k Fk.
+
+Definition commit_ok (L : list (instr * list instr)) : Prop :=
+  match a with
+  | None => forall I args, In (I, args) L -> (exists j t p, iop I = OFunctor j t p) \/ (exists p, iop I = OGetter p)
+  | Some l =>
+      ((forall I args, In (I, args) L -> iop I <> OCommitter)
+       /\ forall i nd, nth_error nodes i = Some nd -> is_train nd && persistent a (ngid nd) = false)
+      \/ (exists C dargs, In (C, dargs) L /\ iop C = OCommitter
+            /\ (forall C' args', In (C', args') L -> iop C' = OCommitter -> C' = C)
+            /\ Forall2 (dump_ok L) dargs l)
+  end.
+
 Record lfacts (L : list (instr * list instr)) : Prop := {
   l_nodup : NoDup (map sid L);
   l_closed : forall I args x, In (I, args) L -> In x args -> exists xs, In (x, xs) L;
-  l_ops : forall I args, In (I, args) L -> (exists j t p, iop I = OFunctor j t p) \/ (exists p, iop I = OGetter p);
   l_unique : forall j x y, isF L j x -> isF L j y -> x = y;
   l_node : forall i nd, nth_error nodes i = Some nd ->
     exists F sargs iargs, In (F, sargs ++ iargs) L /\ iop F = fop i nd
-      /\ (if preset_of i nd
-          then exists k ndk Fk, sargs = [Fk] /\ nth_error nodes k = Some ndk /\ is_train ndk = true /\ ngid ndk = ngid nd /\ k <> i /\ isF L k Fk
-          else sargs = [])
-      /\ Forall2 (deliv L) iargs (ports nd)
+      /\ (if preset_of i nd then exists x, sargs = [x] /\ state_ok L i nd x else sargs = [])
+      /\ Forall2 (deliv L) iargs (ports nd);
+  l_commit : commit_ok L
 }.
 
 (* ---- the trainer function of the validator ----------------------------------------------------------------- *)
@@ -159,6 +176,16 @@ Proof.
   - intros [Hs [k [ndk [Hne [Hk [Hg Ht]]]]]]. split; [exact Hs|]. exists (k, ndk). split.
     + apply combine_seq_in. rewrite Nat.sub_0_r. split; [lia|exact Hk].
     + simpl. rewrite Ht, Hg, Nat.eqb_refl. apply Nat.eqb_neq in Hne. rewrite Hne. reflexivity.
+Qed.
+
+Lemma trainer_total k ndk : nth_error nodes k = Some ndk -> is_train ndk = true ->
+  trainer nodes (List.length nodes) (ngid ndk) = Some k.
+Proof.
+  intros Hn Ht. assert (Hk : k < List.length nodes) by (apply nth_error_Some; rewrite Hn; discriminate).
+  destruct (trainer nodes (List.length nodes) (ngid ndk)) as [k'|] eqn:E.
+  - destruct (trainer_some (ngid ndk) _ k' E) as [_ [ndk' [Hn' [Hg Ht']]]].
+    f_equal. apply (w_unique a nodes wf k' ndk' k ndk Hn' Hn Ht' Ht Hg).
+  - rewrite (trainer_none (ngid ndk) _ E k ndk Hk Hn eq_refl) in Ht. discriminate.
 Qed.
 
 Section WithL.
@@ -242,6 +269,12 @@ Proof.
     apply (IH ins' qs'); [intros k ip' Hk; apply (Hsub (S k) ip' Hk)|exact HF'|reflexivity].
 Qed.
 
+Lemma loader_ok x g q : In (x, []) L -> iop x = OLoader g -> posL x = Some q -> is_loader t q g = true.
+Proof.
+  intros Hin Ho Hq. destruct (position_in L x [] (l_nodup L HL) Hin) as [q0 [Hq0 Hn0]]. unfold posL in Hq. rewrite Hq0 in Hq. injection Hq as <-.
+  destruct (t_nth q0 x [] Hn0) as [qs [Htq Hqs]]. simpl in Hqs. injection Hqs as <-. unfold is_loader. rewrite Htq, Ho. apply Nat.eqb_refl.
+Qed.
+
 Lemma valid_node_ok i nd : nth_error nodes i = Some nd -> valid_node a nodes t i nd = true.
 Proof.
   intros Hn. destruct (l_node L HL i nd Hn) as [F [sargs [iargs [Hin [Ho [Hs Hd]]]]]].
@@ -251,45 +284,62 @@ Proof.
   { destruct (position_in L F (sargs ++ iargs) (l_nodup L HL) Hin) as [q0 [Hq0 Hn0]]. unfold posL in Hq. rewrite Hq0 in Hq. injection Hq as <-.
     rewrite HLq in Hn0. injection Hn0 as ->. reflexivity. } subst args.
   destruct (traverse_app posL sargs iargs qs Hqs) as [sq [iq [Hsq [Hiq ->]]]].
-  pose proof (w_nopers a nodes wf i nd Hn) as Hnp.
   assert (Hst : strain nd = is_train nd).
   { unfold strain. destruct (is_train nd) eqn:Et; [rewrite (w_train_stateful a nodes wf i nd Hn Et); reflexivity|apply andb_false_r]. }
-  assert (Hpre : preset_of i nd = nstateful nd && derived nodes i nd) by (unfold C01Inv.preset_of; rewrite Hnp; reflexivity).
   assert (Hlt : forallb (fun jp => Nat.ltb (fst jp) i) (ports nd) = true).
   { apply forallb_forall. intros ip Hip. apply In_nth_error in Hip. destruct Hip as [q' Hq'].
     apply Nat.ltb_lt. exact (proj1 (w_ports a nodes wf i nd q' ip Hn Hq')). }
   assert (Hall : all2 (delivers nodes t) iq (ports nd) = true).
   { apply (all2_ok i nd Hn iargs (ports nd) iq); [intros k ip Hk; exists k; exact Hk|exact Hd|exact Hiq]. }
-  unfold valid_node. rewrite Hpos, Htq, Ho. unfold C01Inv.fop. rewrite Hst, Hpre. rewrite eqb_reflx. simpl.
+  (* the state argument, once its kind is known *)
+  assert (Hfun : forall k ndk x, sargs = [x] -> nth_error nodes k = Some ndk -> isF L k x -> exists pk, sq = [pk] /\ pos t k = Some pk).
+  { intros k ndk x -> Hnk HFk. destruct (pos_fun k x HFk) as [pk [_ [_ [Hpk [Hposk _]]]]].
+    simpl in Hsq. unfold posL in Hsq, Hpk. rewrite Hpk in Hsq. simpl in Hsq. injection Hsq as <-. exists pk. auto. }
+  assert (Hload : forall x, sargs = [x] -> In (x, []) L -> iop x = OLoader (ngid nd) -> exists pq, sq = [pq] /\ is_loader t pq (ngid nd) = true).
+  { intros x -> Hx Hox. destruct (position_in L x [] (l_nodup L HL) Hx) as [pq [Hpq _]].
+    simpl in Hsq. unfold posL in Hsq. rewrite Hpq in Hsq. simpl in Hsq. injection Hsq as <-. exists pq. split; [reflexivity|].
+    apply (loader_ok x (ngid nd) pq Hx Hox). exact Hpq. }
+  unfold valid_node. rewrite Hpos, Htq, Ho. unfold C01Inv.fop. rewrite Hst. rewrite eqb_reflx. simpl.
   unfold ports in Hlt, Hall, Hd.
   destruct (nkind nd) as [inputs|tr lb] eqn:Ek.
   - (* applied *)
     assert (Et : is_train nd = false) by (unfold is_train; rewrite Ek; reflexivity). rewrite Et. rewrite Hlt. simpl.
     destruct (nstateful nd) eqn:Es.
-    + simpl in *. destruct (trainer nodes i (ngid nd)) as [k|] eqn:Etr.
+    + destruct (trainer nodes i (ngid nd)) as [k|] eqn:Etr.
       * destruct (trainer_some (ngid nd) i k Etr) as [Hki [ndk [Hnk [Hg Htk]]]].
         assert (Hder : derived nodes i nd = true).
         { apply (derived_spec i nd Hn). split; [exact Es|]. exists k, ndk. repeat split; auto. lia. }
-        rewrite Hder in *. rewrite Hpre in Hs. destruct Hs as [k' [ndk' [Fk [-> [Hnk' [Htk' [Hg' [Hne HFk]]]]]]]].
-        assert (k' = k) by (apply (w_unique a nodes wf k' ndk' k ndk Hnk' Hnk Htk' Htk); congruence). subst k'.
-        destruct (pos_fun k Fk HFk) as [pk [_ [_ [Hpk [Hposk _]]]]].
-        simpl in Hsq. unfold posL in Hsq, Hpk. rewrite Hpk in Hsq. simpl in Hsq. injection Hsq as <-.
-        simpl. rewrite Hposk, Nat.eqb_refl. simpl. exact Hall.
+        assert (Hpre : preset_of i nd = true) by (unfold C01Inv.preset_of; rewrite Es, Hder; simpl; apply orb_true_r).
+        rewrite Hpre in *. destruct Hs as [x [Hsx Hsok]].
+        destruct Hsok as [[k' [ndk' [Hnk' [Htk' [Hg' [Hne HFk]]]]]]|[Hno _]].
+        -- assert (k' = k) by (apply (w_unique a nodes wf k' ndk' k ndk Hnk' Hnk Htk' Htk); congruence). subst k'.
+           destruct (Hfun k ndk x Hsx Hnk HFk) as [pk [-> Hposk]]. simpl. rewrite Hposk, Nat.eqb_refl. simpl. exact Hall.
+        -- exfalso. pose proof (Hno k ndk Hnk Htk Hg). subst k. rewrite Hn in Hnk. injection Hnk as <-. congruence.
       * assert (Hder : derived nodes i nd = false).
         { destruct (derived nodes i nd) eqn:E; [|reflexivity]. apply (derived_spec i nd Hn) in E. destruct E as [_ [k [ndk [Hne [Hnk [Hg Htk]]]]]].
           pose proof (trainer_first i nd k ndk Hn Hnk Et Es Htk Hg) as Hlt'.
           rewrite (trainer_none (ngid nd) i Etr k ndk Hlt' Hnk Hg) in Htk. discriminate. }
-        rewrite Hder in *. rewrite Hpre in Hs. simpl in Hs. subst sargs. simpl in Hsq. injection Hsq as <-. simpl.
-        unfold pers in Hnp. rewrite Es in Hnp. simpl in Hnp. rewrite Hnp. simpl. exact Hall.
-    + simpl in *. rewrite Hpre in Hs. simpl in Hs. subst sargs. simpl in Hsq. injection Hsq as <-. simpl. exact Hall.
+        assert (Hpre : preset_of i nd = persistent a (ngid nd)) by (unfold C01Inv.preset_of, C01Inv.pers; rewrite Es, Hder; simpl; apply orb_false_r).
+        rewrite Hpre in *. simpl. destruct (persistent a (ngid nd)) eqn:Epa.
+        -- destruct Hs as [x [Hsx Hsok]]. destruct Hsok as [[k' [ndk' [Hnk' [Htk' [Hg' [Hne HFk]]]]]]|[_ [_ [Hox Hx]]]].
+           ++ exfalso. pose proof (trainer_first i nd k' ndk' Hn Hnk' Et Es Htk' Hg') as Hlt'.
+              rewrite (trainer_none (ngid nd) i Etr k' ndk' Hlt' Hnk' Hg') in Htk'. discriminate.
+           ++ destruct (Hload x Hsx Hx Hox) as [pq [-> Hpq]]. simpl. rewrite Hpq. simpl. exact Hall.
+        -- subst sargs. simpl in Hsq. injection Hsq as <-. simpl. exact Hall.
+    + assert (Hpre : preset_of i nd = false) by (unfold C01Inv.preset_of; rewrite Es; reflexivity).
+      rewrite Hpre in *. subst sargs. simpl in Hsq. injection Hsq as <-. simpl. exact Hall.
   - (* trained *)
     assert (Et : is_train nd = true) by (unfold is_train; rewrite Ek; reflexivity). rewrite Et.
-    pose proof (w_train_stateful a nodes wf i nd Hn Et) as Es. rewrite Es in *. rewrite Hlt. simpl.
+    pose proof (w_train_stateful a nodes wf i nd Hn Et) as Es. rewrite Es. rewrite Hlt. simpl.
     assert (Hder : derived nodes i nd = false).
     { destruct (derived nodes i nd) eqn:E; [|reflexivity]. apply (derived_spec i nd Hn) in E. destruct E as [_ [k [ndk [Hne [Hnk [Hg Htk]]]]]].
       exfalso. apply Hne. apply (w_unique a nodes wf k ndk i nd Hnk Hn Htk Et Hg). }
-    rewrite Hder in *. rewrite Hpre in Hs. simpl in Hs. subst sargs. simpl in Hsq. injection Hsq as <-. simpl.
-    unfold pers in Hnp. rewrite Es in Hnp. simpl in Hnp. rewrite Hnp. simpl. exact Hall.
+    assert (Hpre : preset_of i nd = persistent a (ngid nd)) by (unfold C01Inv.preset_of, C01Inv.pers; rewrite Es, Hder; simpl; apply orb_false_r).
+    rewrite Hpre in *. destruct (persistent a (ngid nd)) eqn:Epa.
+    + destruct Hs as [x [Hsx Hsok]]. destruct Hsok as [[k' [ndk' [Hnk' [Htk' [Hg' [Hne HFk]]]]]]|[_ [_ [Hox Hx]]]].
+      * exfalso. apply Hne. apply (w_unique a nodes wf k' ndk' i nd Hnk' Hn Htk' Et Hg').
+      * destruct (Hload x Hsx Hx Hox) as [pq [-> Hpq]]. simpl. rewrite Hpq. simpl. exact Hall.
+    + subst sargs. simpl in Hsq. injection Hsq as <-. simpl. exact Hall.
 Qed.
 
 Theorem lfacts_validate : validate a nodes t = true.
@@ -298,23 +348,66 @@ Proof.
   rewrite Nat.sub_0_r in Hn. simpl. exact (valid_node_ok i nd Hn).
 Qed.
 
-Lemma t_ops s : In s t -> (exists j tr pr, fst s = OFunctor j tr pr) \/ (exists p, fst s = OGetter p).
+Lemma t_in s : In s t -> exists I args, In (I, args) L /\ fst s = iop I.
 Proof.
   intros Hs. apply In_nth_error in Hs. destruct Hs as [q Hq]. destruct s as [o qs].
-  destruct (t_nth_inv q o qs Hq) as [I [args [HLq ->]]]. simpl. exact (l_ops L HL I args (nth_error_In _ _ HLq)).
+  destruct (t_nth_inv q o qs Hq) as [I [args [HLq ->]]]. exists I, args. split; [exact (nth_error_In _ _ HLq)|reflexivity].
+Qed.
+
+Lemma dumps_ok : forall dargs (l : list (nat * term)) qs, Forall2 (dump_ok L) dargs l -> traverse posL dargs = Some qs ->
+  all2 (fun d gt => match nth_error t d, trainer nodes (List.length nodes) (fst gt) with
+                    | Some (ODumper, [f]), Some k => match pos t k with Some pk => Nat.eqb f pk | None => false end
+                    | _, _ => false
+                    end) qs l = true.
+Proof.
+  induction dargs as [|d dargs IH]; intros l qs HF Hq; inversion HF as [|? gt ? l' Hd HF']; subst; simpl in Hq.
+  - injection Hq as <-. reflexivity.
+  - destruct (posL d) as [qd|] eqn:Ed; simpl in Hq; [|discriminate]. destruct (traverse posL dargs) as [qs'|] eqn:Et; simpl in Hq; [|discriminate].
+    injection Hq as <-. simpl. rewrite (IH l' qs' HF' eq_refl), andb_true_r.
+    destruct Hd as [Hod [k [ndk [Fk [Hin [Hnk [Htk [Hg HFk]]]]]]]].
+    destruct (position_in L d [Fk] (l_nodup L HL) Hin) as [q0 [Hq0 Hn0]]. unfold posL in Ed. rewrite Hq0 in Ed. injection Ed as <-.
+    destruct (t_nth q0 d [Fk] Hn0) as [qs [Htq Hqs]]. destruct (pos_fun k Fk HFk) as [pk [_ [_ [Hpk [Hposk _]]]]].
+    simpl in Hqs. unfold posL in Hqs, Hpk. rewrite Hpk in Hqs. simpl in Hqs. injection Hqs as <-.
+    rewrite Htq, Hod. rewrite <- Hg, (trainer_total k ndk Hnk Htk), Hposk. apply Nat.eqb_refl.
 Qed.
 
 Theorem lfacts_commit : valid_commit a nodes t = true.
 Proof.
-  unfold valid_commit. destruct a as [l|] eqn:Ea.
-  - rewrite find_pos_none.
-    + apply negb_true_iff. apply not_true_iff_false. intros X. apply existsb_exists in X. destruct X as [nd [Hin X]].
-      apply andb_prop in X. destruct X as [Htr Hp]. apply In_nth_error in Hin. destruct Hin as [i Hn].
-      pose proof (w_nopers _ nodes wf i nd Hn) as Hnp. unfold pers in Hnp.
-      rewrite (w_train_stateful _ nodes wf i nd Hn Htr) in Hnp. rewrite Hp in Hnp. discriminate.
-    + intros s Hs. destruct (t_ops s Hs) as [[j [tr [pr ->]]]|[p ->]]; reflexivity.
-  - apply negb_true_iff. apply not_true_iff_false. intros X. apply existsb_exists in X. destruct X as [s [Hs X]].
-    destruct (t_ops s Hs) as [[j [tr [pr E]]]|[p E]]; rewrite E in X; discriminate.
+  pose proof (l_commit L HL) as Hc. unfold commit_ok in Hc. unfold valid_commit.
+  assert (G : forall a0, a = a0 ->
+    match a0 with
+    | Some l =>
+        match find_pos (fun s : sym => match fst s with OCommitter => true | _ => false end) t with
+        | Some c =>
+            match nth_error t c with
+            | Some (_, args) =>
+                all2 (fun d gt => match nth_error t d, trainer nodes (List.length nodes) (fst gt) with
+                                  | Some (ODumper, [f]), Some k => match pos t k with Some pk => Nat.eqb f pk | None => false end
+                                  | _, _ => false
+                                  end) args l
+            | None => false
+            end
+        | None => negb (existsb (fun n => is_train n && persistent a0 (ngid n)) nodes)
+        end
+    | None => negb (existsb (fun s : sym => match fst s with OCommitter | ODumper | OLoader _ => true | _ => false end) t)
+    end = true).
+  { intros a0 Ea. destruct a0 as [l|].
+    - rewrite Ea in Hc. destruct Hc as [[Hno Hnp]|[C [dargs [Hin [Ho [Huniq HF]]]]]].
+      + rewrite find_pos_none.
+        * apply negb_true_iff. apply not_true_iff_false. intros X. apply existsb_exists in X. destruct X as [nd [Hin X]].
+          apply In_nth_error in Hin. destruct Hin as [i Hn]. rewrite (Hnp i nd Hn) in X. discriminate.
+        * intros s Hs. destruct (t_in s Hs) as [I [args [Hin E]]]. rewrite E. destruct (iop I) eqn:Eo; try reflexivity. exfalso. exact (Hno I args Hin Eo).
+      + destruct (position_in L C dargs (l_nodup L HL) Hin) as [qc [Hqc Hnc]]. destruct (t_nth qc C dargs Hnc) as [qs [Htq Hqs]].
+        rewrite (find_pos_first _ t qc (iop C, qs) Htq).
+        * rewrite Htq. exact (dumps_ok dargs l qs HF Hqs).
+        * simpl. rewrite Ho. reflexivity.
+        * intros q' [o' qs'] Hlt Hn'. simpl. destruct o'; try reflexivity. exfalso.
+          destruct (t_nth_inv q' _ qs' Hn') as [I' [args' [HL' Ho']]].
+          assert (I' = C) by (apply (Huniq I' args' (nth_error_In _ _ HL')); symmetry; exact Ho'). subst I'.
+          destruct (position_some L (iid C) qc Hqc) as [s [_ [_ Hmin]]]. apply (Hmin q' (C, args') Hlt HL'). reflexivity.
+    - rewrite Ea in Hc. apply negb_true_iff. apply not_true_iff_false. intros X. apply existsb_exists in X. destruct X as [s [Hs X]].
+      destruct (t_in s Hs) as [I [args [Hin E]]]. rewrite E in X. destruct (Hc I args Hin) as [[j [tr [pr Eo]]]|[p Eo]]; rewrite Eo in X; discriminate. }
+  exact (G a eq_refl).
 Qed.
 
 End WithL.
